@@ -159,6 +159,9 @@ def _str(E, st, args, kw, n):
     if v.ty.kind == "int":
         yield st, V(STR, z3.IntToStr(v.t))
         return
+    if v.ty.kind == "obj" and (v.ty.name == "<exc>" or getattr(v, "_exc", None) is not None):
+        yield st, V(STR, ops.UF("str_of_any", z3.IntSort(), z3.StringSort())(v.t))
+        return
     if v.ty.is_ref:
         # arbitrary __str__: may raise anything
         st_e = st.fork()
@@ -166,6 +169,39 @@ def _str(E, st, args, kw, n):
         yield st, V(STR, ops.UF("str_of_any", z3.IntSort(), z3.StringSort())(v.t))
         return
     raise Unsupported("str() of %s" % v.ty)
+
+
+@static("mako.compat:exception_as")
+def _exception_as(E, st, args, kw, n):
+    if st.cur_exc is None:
+        yield st, vnone()
+        return
+    exc = st.cur_exc
+    yield st, exc_value(exc)
+
+
+def exc_value(exc):
+    if exc.ref is not None:
+        ev = exc.ref
+    else:
+        if exc.rid is None:
+            exc.rid = fresh(ANY, "excid")
+        ev = V(OBJ("<exc>"), exc.rid.t, py=exc.cls)
+    ev._exc = exc
+    return ev
+
+
+@static("sys:exc_info")
+def _exc_info(E, st, args, kw, n):
+    if st.cur_exc is None:
+        yield st, vtuple([vnone(), vnone(), vnone()])
+        return
+    exc = st.cur_exc
+    ev = exc_value(exc)
+    cls = fresh(ANY, "exc_cls")
+    tb = fresh(ANY, "exc_tb")
+    st.assume(cls.t > 0)
+    yield st, vtuple([cls, ev, tb])
 
 
 @static("builtins:repr")
@@ -250,8 +286,13 @@ def _dict(E, st, args, kw, n):
 @static("builtins:hasattr")
 def _hasattr(E, st, args, kw, n):
     o, name = args
-    if o.ty.kind == "obj":
-        fty, _ = S.find_field(o.ty.name, "?has_" + (z3.simplify(name.t).as_string() if z3.is_string_value(z3.simplify(name.t)) else "*"))
+    nm = z3.simplify(name.t)
+    if o.ty.kind == "obj" and z3.is_string_value(nm):
+        fty, _ = S.find_field(o.ty.name, nm.as_string())
+        if fty is not None:
+            # optional attribute modelled as a nullable field: present iff not None
+            yield st, vbool(z3.Not(ops.is_none(st.get_field(o, nm.as_string()))))
+            return
     f = ops.UF("hasattr", z3.IntSort(), z3.StringSort(), z3.BoolSort())
     yield st, vbool(f(o.t, name.t))
 
